@@ -26,6 +26,7 @@ import (
 	"runtime"
 	"strconv"
 	"strings"
+	"sync"
 	"testing"
 	"time"
 )
@@ -133,12 +134,26 @@ func worker(t *testing.T) {
 		}
 		fmt.Fprintf(out, "BEGIN %s\n", h.ID)
 		out.Flush()
+		var omu sync.Mutex
+		stopWatch := watchWedge(h, func(res *Result) {
+			// the bubble is wedged for good: report and leave; the parent starts
+			// a new child for the remaining histories
+			omu.Lock()
+			fmt.Fprintf(out, "RESULT %s\n", mustJSON(res))
+			out.Flush()
+			os.Exit(4)
+		})
 		res := runHistory(t, h, *fTrace, func(p *Result) {
+			omu.Lock()
 			fmt.Fprintf(out, "PARTIAL %s\n", mustJSON(p))
 			out.Flush()
+			omu.Unlock()
 		})
+		stopWatch()
+		omu.Lock()
 		fmt.Fprintf(out, "RESULT %s\n", mustJSON(res))
 		out.Flush()
+		omu.Unlock()
 	}
 }
 
@@ -212,6 +227,9 @@ func printReplay(h *History, oc outcome) {
 			fmt.Printf("  the CALL carries a router-handled timeout of %d ms; the callee's final YIELD stops that timer, also while the RESULT is retried\n", y.TimeoutMs)
 		}
 		fmt.Printf("  model (coq/Conc/YieldRetry.v, prediction): retries at 1, 3, 7, ... ms after the YIELD; RESULT at the first retry instant >= resume instant, else cancel at 65 535 ms\n")
+	}
+	if c := h.ChunkStalled; c != nil {
+		fmt.Printf("  scripted scenario: progressive call invocation; the callee (q=%d) reads the first chunk, stops reading, its queue is filled completely; the caller sends a further chunk (last: %v); 1 s later the callee reads again and answers with: %s\n", c.Q, c.Last, c.Answer)
 	}
 	if c := h.CancelStalled; c != nil {
 		fmt.Printf("  scripted scenario: a callee (call_canceling, q=%d) holds a call, stops reading, its queue is filled (completely: %v); the caller CANCELs with mode %q, again 2 ms later; the callee reads again 1 s later\n", c.Q, c.Full, c.Mode)
